@@ -15,7 +15,7 @@ LEAN = os.path.join(VERIF, "lean")
 DRIVER = os.path.join(LEAN, ".lake", "build", "bin", "driver")
 EVIDENCE = os.path.join(VERIF, "evidence")
 REPLAYS = os.path.join(VERIF, "replays")
-REPO = "/repo"
+REPO = os.environ.get("VERIF_REPO", "/repo")
 ALLOWED_AXIOMS = {"propext", "Classical.choice", "Quot.sound"}
 FORBIDDEN = re.compile(r"\b(sorry|admit|native_decide|bv_decide|implemented_by|unsafe)\b|^\s*axiom\s|maxHeartbeats\s+0\b")
 
